@@ -204,6 +204,68 @@ func DrawHierarchy(t *rapid.T, format string, o HierOpts) Hierarchy {
 	return h
 }
 
+// DeepTags is the alphabet of DrawDeepHierarchy.
+var DeepTags = []string{"A", "B", "C", "D", "E", "F", "G", "H", "I", "J", "K", "L", "M", "N", "O", "P"}
+
+// DrawDeepHierarchy draws a chain of 7..15 nested declarations (one child per level, every level min 1, so that a valid
+// instance reaches the deepest level): the readers keep one stack frame per nesting level and grow that stack (initial
+// capacity 10) while reading. Levels are segments/records with their own tag; some levels are groups (whose first member
+// is then the next level). The target sits at any level.
+func DrawDeepHierarchy(t *rapid.T, format string) Hierarchy {
+	depth := rapid.IntRange(7, 15).Draw(t, "deepDepth")
+	h := Hierarchy{Format: format}
+	var all []*model.HDecl
+	var parent *model.HDecl
+	tag := 0
+	for lvl := 0; lvl < depth; lvl++ {
+		d := &model.HDecl{}
+		last := lvl == depth-1
+		if !last && lvl > 0 && rapid.IntRange(0, 3).Draw(t, fmt.Sprintf("deepGroup%d", lvl)) == 0 {
+			d.Group = true
+			d.Name = "G" + DeepTags[tag%len(DeepTags)]
+		} else {
+			d.Tag = DeepTags[tag%len(DeepTags)]
+			d.Name = d.Tag
+			d.Cols = 1
+			tag++
+		}
+		d.Min = hierIntPtr(1)
+		mx := rapid.SampledFrom([]int{1, 1, 2, -1}).Draw(t, fmt.Sprintf("deepMax%d", lvl))
+		d.Max = hierIntPtr(mx)
+		if parent == nil {
+			h.Top = append(h.Top, d)
+		} else {
+			parent.Children = append(parent.Children, d)
+		}
+		parent = d
+		all = append(all, d)
+	}
+	all[rapid.IntRange(0, len(all)-1).Draw(t, "deepTarget")].Target = true
+	return h
+}
+
+// DrawDeepUnits draws a valid instance of a deep chain (optionally with one edit), at most 40 units.
+func DrawDeepUnits(t *rapid.T, h Hierarchy) []model.HUnit {
+	g := &hierDrawer{t: t, format: h.Format, tags: DeepTags}
+	var seq []string
+	g.instance(h.Top, h.HOpts(), &seq, rapid.Bool().Draw(t, "deepLean"))
+	if len(seq) > 0 && rapid.IntRange(0, 3).Draw(t, "deepEdit") == 0 {
+		p := rapid.IntRange(0, len(seq)-1).Draw(t, "deepEditPos")
+		switch rapid.IntRange(0, 2).Draw(t, "deepEditOp") {
+		case 0:
+			seq = append(seq[:p], seq[p+1:]...)
+		case 1:
+			seq = append(seq[:p+1], append([]string{seq[p]}, seq[p+1:]...)...)
+		default:
+			seq = append(seq[:p], append([]string{"X"}, seq[p:]...)...)
+		}
+	}
+	if len(seq) > 40 {
+		seq = seq[:40]
+	}
+	return HUnitsOf(seq)
+}
+
 // DrawHRender draws how the units are written.
 func DrawHRender(t *rapid.T, format string, nUnits int) HRender {
 	r := HRender{EOL: "\n"}
